@@ -301,8 +301,14 @@ SHAPES = ["{ D = X; }", "{ D = -X; }", "{ D = ~X; }", "{ D = PuV ? X : RtV; }", 
           "{ D = RsV ? ({ RxV = 2; X; }) : 0; }", "{ D = (X > 2) ? 1 : 0; }"]
 
 
+REGISTER_USES = ["{ RxV++; }", "{ RxV--; }", "{ RdV = ({ RxV = 1; RsV; }); }", "{ RdV = 1 ? RsV : RtV; }", "{ RdV = 0 ? RsV : RtV; }",
+                 "{ RdV = (2 > 1) ? RtV : RsV; }", "{ RddV = ({ RxV = 1; RssV; }); }", "{ RddV = 1 ? RssV : RttV; }", "{ RdV = RsV; }",
+                 "{ RdV = RsV + RtV; }", "{ RxV = RxV + 1; }", "{ RdV = -RsV; }", "{ RdV = PuV ? RsV : RtV; }", "{ PdV = PsV; }",
+                 "{ PdV = 1 ? PsV : PtV; }", "{ RdV = ({ PdV = 1; PsV; }); }"]
+
+
 def callee_shapes() -> dict[str, list[str]]:
-    out = {}
+    out = {"registers": list(REGISTER_USES)}       # register operands share type objects too
     for name, (x, w) in CALLEES.items():
         out[name] = [sh.replace("X", x).replace("D", "RdV" if w == 32 else "RddV") for sh in SHAPES]
     return out
